@@ -2,6 +2,7 @@
 (judged by spec.py, the independent MCNP-rules reader)."""
 import re
 import warnings
+from fractions import Fraction
 
 import edits as ED
 import gen
@@ -35,7 +36,7 @@ def jsonable_meta(m):
 def meta_int_keys(m):
     """undo the str() of dict keys done for JSON"""
     out = dict(m)
-    for k in ("surface_constants", "universes", "fills", "imps", "vols"):
+    for k in ("surface_constants", "universes", "fills", "imps", "vols", "material_zaids", "material_laws"):
         if k in out and isinstance(out[k], dict):
             out[k] = {int(a): b for a, b in out[k].items()}
     return out
@@ -66,216 +67,565 @@ def c01_check(case):
     return None
 
 
-# ----------------------------------------------------------------------------- C03 / C07
-def _tok_num(t):
-    m = re.match(r"^([#*+-]?)(\d+)$", t)
-    if m:
-        return int(m.group(2))
-    return None
+# ----------------------------------------------------------------------------- denotation (C03)
+# What a file *means* under MCNP's rules, in a form on which an API edit has an obvious reference effect.
+# Per-cell data (IMP:x VOL U FILL LAT) are merged into the cell records whether they were written as cell
+# parameters or as data-block vectors (which block they are written in is C09's business, not C03's).
+_VEC = re.compile(r"^\*?(IMP):(.+)$|^(VOL|U|FILL|LAT)$")
+_NUMBERED = re.compile(r"^(\*?)(MT|M|TR)(\d+)$")
 
 
-def explain_token_change(old, new, exps):
-    """is the change of one token explained by the expectations (in program order, chains allowed:
-    assign material 2, then renumber material 2 -> 42)?"""
-    nv = spec.read_number(new.lstrip("#*"))
-    mo = re.match(r"^([#*+-]?)([A-Z]*)(\d+)(.*)$", old)
-    mn = re.match(r"^([#*+-]?)([A-Z]*)(\d+)(.*)$", new)
-    cand = set()
-    if mo:
-        cand.add(int(mo.group(3)))
-    for ex in exps:
-        if ex[0] == "renumber":
-            _, kind, o, n = ex
-            if o in cand:
-                cand.add(n)
-        elif ex[0] == "value":
-            v = ex[4]
-            if isinstance(v, int) or (isinstance(v, float) and v == int(v) and ex[3][0] == "material"):
-                cand.add(int(v))
-    if mo and mn and mo.group(1) == mn.group(1) and mo.group(2) == mn.group(2) and mo.group(4) == mn.group(4) \
-            and int(mn.group(3)) in cand and int(mn.group(3)) != int(mo.group(3)):
-        return True
-    for ex in exps:
-        if ex[0] == "value":
-            v = ex[4]
-            if nv is not None and (spec.close(float(nv), float(v)) or spec.close(float(abs(nv)), float(abs(v)))):
-                return True     # density sign carries atom/mass mode
-    return False
+class Unreadable(Exception):
+    pass
 
 
-def card_id(card, block):
-    t = spec.tokens(card.text)
-    return t[0] if t else ""
+def _val(x):
+    """expanded entry -> Fraction | None (jump / absent) | str"""
+    if x == "J":
+        return None
+    return x
 
 
-def c07_check(case, prog, exps_out=None):
-    """edited write vs unedited write of the same text.  -> None | failure dict"""
+def denote(text, W):
+    sp = spec.split_file(text, W)
+    b = sp["blocks"] + [[]] * (3 - len(sp["blocks"]))
+    D = {"title": sp["title"].rstrip(), "message": [l.rstrip() for l in (sp["message"] or [])],
+         "cells": [], "surfaces": [], "data": [], "trailing": [l for l in sp["trailing"] if l.strip()]}
+    for card in b[0]:
+        try:
+            c = spec.parse_cell(card)
+        except Exception as e:
+            raise Unreadable("cell card %r: %s" % (card.text, e))
+        rec = {"number": c["number"], "material": c["material"], "density": c["density"], "geom": c["geom"],
+               "imp": {}, "vol": None, "u": None, "fill": None, "lat": None, "other": {}, "text": card.text}
+        for k, v in c["params"].items():
+            vals = [_val(x) for x in spec.expand_shortcuts(v)]
+            K = k.upper()
+            m = _VEC.match(K)
+            if m and m.group(1):
+                for part in m.group(2).split(","):
+                    rec["imp"][part] = vals[0] if vals else None
+            elif m and not K.startswith("*"):
+                key = m.group(3).lower()
+                rec[key] = vals[0] if len(vals) == 1 else (vals or None)
+            else:
+                rec["other"][K] = vals
+        D["cells"].append(rec)
+    for card in b[1]:
+        try:
+            s = spec.parse_surface(card)
+        except Exception as e:
+            raise Unreadable("surface card %r: %s" % (card.text, e))
+        s["text"] = card.text
+        D["surfaces"].append(s)
+    ncell = len(D["cells"])
+    for card in b[2]:
+        toks = []
+        for t in spec.tokens(card.text):
+            toks += [x for x in re.split(r"([()])", t) if x]
+        if not toks:
+            continue
+        name = toks[0]
+        m = _VEC.match(name)
+        if m and not (m.group(3) == "VOL" and len(toks) > 1 and toks[1] == "NO"):
+            vals = [_val(x) for x in spec.expand_shortcuts(toks[1:])]
+            vals = vals + [None] * (ncell - len(vals))
+            if len(vals) > ncell:
+                D["data"].append({"kind": "OTHER", "name": name + "(too many entries)", "values": vals})
+                continue
+            for rec, v in zip(D["cells"], vals):
+                if v is None:
+                    continue
+                if m.group(1):
+                    for part in m.group(2).split(","):
+                        rec["imp"][part] = v
+                else:
+                    rec[m.group(3).lower()] = v
+            continue
+        mn = _NUMBERED.match(name)
+        if mn and mn.group(2) == "M":
+            body = toks[1:]
+            pairs = []
+            kw = []
+            k = 0
+            while k + 1 < len(body) and spec.read_number(body[k + 1]) is not None and "=" not in body[k]:
+                pairs.append([body[k], spec.read_number(body[k + 1])])
+                k += 2
+            D["data"].append({"kind": "M", "number": int(mn.group(3)), "pairs": pairs, "rest": body[k:]})
+        elif mn and mn.group(2) == "MT":
+            D["data"].append({"kind": "MT", "number": int(mn.group(3)), "laws": toks[1:]})
+        elif mn and mn.group(2) == "TR":
+            D["data"].append({"kind": "TR", "number": int(mn.group(3)), "star": mn.group(1) == "*",
+                              "values": [_val(x) for x in spec.expand_shortcuts(toks[1:])]})
+        elif name == "MODE":
+            D["data"].append({"kind": "MODE", "particles": toks[1:]})
+        else:
+            D["data"].append({"kind": "OTHER", "name": name, "values": spec.expand_shortcuts(toks[1:])})
+    for rec in D["cells"]:
+        for k in ("u", "fill"):
+            if isinstance(rec[k], Fraction) and rec[k] == 0:
+                rec[k] = None
+    return D
+
+
+def _same(a, b):
+    if a is None or b is None:
+        return a is None and b is None
+    if isinstance(a, list) or isinstance(b, list):
+        return isinstance(a, list) and isinstance(b, list) and len(a) == len(b) and all(_same(x, y) for x, y in zip(a, b))
+    if isinstance(a, (int, float, Fraction)) and isinstance(b, (int, float, Fraction)):
+        return spec.close(Fraction(a), Fraction(b))
+    return a == b
+
+
+def _show(x):
+    if isinstance(x, Fraction):
+        return repr(float(x))
+    if isinstance(x, list):
+        return "[" + ", ".join(_show(y) for y in x) + "]"
+    return str(x)
+
+
+def denote_diff(want, got):
+    """differences between two denotations -> list of [where, what, wanted, got]"""
+    out = []
+    if want["title"] != got["title"]:
+        out.append(["title", "text", want["title"], got["title"]])
+    if [re.sub(r"\s+", " ", x).strip().upper() for x in want["message"]] != \
+            [re.sub(r"\s+", " ", x).strip().upper() for x in got["message"]]:
+        out.append(["message", "text", want["message"], got["message"]])
+    if len(want["cells"]) != len(got["cells"]):
+        out.append(["cells", "count", len(want["cells"]), len(got["cells"])])
+    for a, b in zip(want["cells"], got["cells"]):
+        where = "cell %s" % a["number"]
+        for k in ("number", "material", "density", "vol", "u", "fill", "lat"):
+            if not _same(a[k], b[k]):
+                out.append([where, k, _show(a[k]), _show(b[k]), b["text"]])
+        if (a["geom"] is None) != (b["geom"] is None) or (a["geom"] is not None and not spec.geom_equal(a["geom"], b["geom"])):
+            out.append([where, "geometry", str(a["geom"])[:200], b["text"]])
+        for part in sorted(set(a["imp"]) | set(b["imp"])):
+            if not _same(a["imp"].get(part), b["imp"].get(part)):
+                out.append([where, "imp:" + part.lower(), _show(a["imp"].get(part)), _show(b["imp"].get(part)), b["text"]])
+        for k in sorted(set(a["other"]) | set(b["other"])):
+            if not _same(a["other"].get(k), b["other"].get(k)):
+                out.append([where, "parameter " + k, _show(a["other"].get(k)), _show(b["other"].get(k)), b["text"]])
+    if len(want["surfaces"]) != len(got["surfaces"]):
+        out.append(["surfaces", "count", len(want["surfaces"]), len(got["surfaces"])])
+    for a, b in zip(want["surfaces"], got["surfaces"]):
+        where = "surface %s" % a["number"]
+        for k in ("number", "modifier", "pointer", "mnemonic"):
+            if a[k] != b[k]:
+                out.append([where, k, a[k], b[k], b["text"]])
+        if not _same(a["constants"], b["constants"]):
+            out.append([where, "constants", _show(a["constants"]), _show(b["constants"]), b["text"]])
+    if len(want["data"]) != len(got["data"]):
+        out.append(["data", "count", [_dname(d) for d in want["data"]], [_dname(d) for d in got["data"]]])
+    for a, b in zip(want["data"], got["data"]):
+        where = "data " + _dname(a)
+        if a["kind"] != b["kind"]:
+            out.append([where, "kind", _dname(a), _dname(b)])
+            continue
+        for k in a:
+            if k == "pairs":
+                if len(a[k]) != len(b[k]) or any(x[0] != y[0] or not _same(x[1], y[1]) for x, y in zip(a[k], b[k])):
+                    out.append([where, k, _show([[z, _show(f)] for z, f in a[k]]), _show([[z, _show(f)] for z, f in b[k]])])
+            elif not _same(a[k], b.get(k)):
+                out.append([where, k, _show(a[k]), _show(b.get(k))])
+    if got["trailing"]:
+        out.append(["after the data block", "text", "", got["trailing"][:3]])
+    return out
+
+
+def _dname(d):
+    if d["kind"] in ("M", "MT", "TR"):
+        return ("*" if d.get("star") else "") + d["kind"] + str(d["number"])
+    if d["kind"] == "MODE":
+        return "MODE"
+    return d["name"]
+
+
+class Ref:
+    """the reference effect of an edit program on a denotation (objects addressed by their ORIGINAL numbers,
+    like edits.Handles)"""
+
+    def __init__(self, D):
+        import copy
+        self.D = copy.deepcopy(D)
+        self.cells = {c["number"]: c for c in self.D["cells"]}
+        self.surfaces = {s["number"]: s for s in self.D["surfaces"]}
+        self.mats = {d["number"]: d for d in self.D["data"] if d["kind"] == "M"}
+        self.mts = {d["number"]: d for d in self.D["data"] if d["kind"] == "MT"}
+        self.trs = {d["number"]: d for d in self.D["data"] if d["kind"] == "TR"}
+
+    def apply(self, e):
+        k = e["kind"]
+        D = self.D
+        if k == "cell_number":
+            c = self.cells[e["orig"]]
+            old = c["number"]
+            c["number"] = e["new"]
+            for x in D["cells"]:
+                if x["geom"] is not None:
+                    x["geom"] = spec.geom_rename(x["geom"], {("c", old): e["new"]})
+        elif k == "surface_number":
+            s = self.surfaces[e["orig"]]
+            old = s["number"]
+            s["number"] = e["new"]
+            for x in D["cells"]:
+                if x["geom"] is not None:
+                    x["geom"] = spec.geom_rename(x["geom"], {("s", old): e["new"]})
+            for x in D["surfaces"]:
+                if x["pointer"] is not None and x["pointer"] == -old:
+                    x["pointer"] = -e["new"]
+        elif k == "material_number":
+            m = self.mats[e["orig"]]
+            old = m["number"]
+            m["number"] = e["new"]
+            if e["orig"] in self.mts:
+                self.mts[e["orig"]]["number"] = e["new"]
+            for x in D["cells"]:
+                if x["material"] == old:
+                    x["material"] = e["new"]
+        elif k == "transform_number":
+            t = self.trs[e["orig"]]
+            old = t["number"]
+            t["number"] = e["new"]
+            for x in D["surfaces"]:
+                if x["pointer"] is not None and x["pointer"] == old:
+                    x["pointer"] = e["new"]
+        elif k == "universe_number":
+            old = self._universe_now(e["orig"])
+            self._uren = getattr(self, "_uren", {})
+            self._uren[e["orig"]] = e["new"]
+            for x in D["cells"]:
+                for key in ("u", "fill"):
+                    v = x[key]
+                    if isinstance(v, Fraction) and abs(v) == old:
+                        x[key] = Fraction(e["new"]) * (1 if v > 0 else -1)
+        elif k == "surface_constant":
+            self.surfaces[e["orig"]]["constants"][e["index"]] = Fraction(e["value"])
+        elif k == "density":
+            c = self.cells[e["orig"]]
+            c["density"] = Fraction(e["value"]) * (1 if e["atom"] else -1)
+        elif k == "importance":
+            self.cells[e["orig"]]["imp"][e["particle"].upper()] = Fraction(e["value"])
+        elif k == "volume":
+            self.cells[e["orig"]]["vol"] = Fraction(e["value"])
+        elif k == "title":
+            D["title"] = e["value"]
+        elif k == "fraction":
+            self.mats[e["orig"]]["pairs"][e["index"]][1] = Fraction(e["value"])
+        elif k == "tr_displacement":
+            self.trs[e["orig"]]["values"][e["index"]] = Fraction(e["value"])
+        elif k == "material_assign":
+            self.cells[e["orig"]]["material"] = self.mats[e["material"]]["number"]
+        elif k == "cell_universe":
+            self.cells[e["orig"]]["u"] = Fraction(self._universe_now(e["universe"]))
+        elif k == "fill_universe":
+            self.cells[e["orig"]]["fill"] = Fraction(self._universe_now(e["universe"]))
+        elif k == "lattice":
+            self.cells[e["orig"]]["lat"] = Fraction(e["value"])
+        elif k == "boundary":
+            self.surfaces[e["orig"]]["modifier"] = {"reflecting": "*", "white": "+", "none": ""}[e["value"]]
+        elif k == "thermal_law":
+            self.mts[e["orig"]]["laws"] = [x.upper() for x in e["laws"]]
+        elif k == "tr_degrees":
+            self.trs[e["orig"]]["star"] = bool(e["value"])
+        else:
+            raise ValueError(k)
+
+    def _universe_now(self, orig):
+        return getattr(self, "_uren", {}).get(orig, orig)
+
+
+def _prepare(case, prog):
+    """-> (U, E, applied, exps) or a failure dict or None (not this family's business)"""
     W = case["width"]
     try:
         pr0 = mp.read_problem(case["text"], version=VERS[W])
         U = mp.write_problem(pr0, "u.i", VERS[W])
         pr1 = mp.read_problem(case["text"], version=VERS[W])
-    except Exception as e:
+    except Exception:
         return None       # reading/writing unedited is C01/C12's business
     try:
         with warnings.catch_warnings():
             warnings.simplefilter("ignore")
             applied, exps = ED.apply_program(pr1, prog)
+    except ED.Inapplicable:
+        return None
     except Exception as e:
         return {"kind": "valid-edit-rejected", "error": type(e).__name__, "msg": str(e)[:300]}
-    if exps_out is not None:
-        exps_out += exps
     try:
         E = mp.write_problem(pr1, "e.i", VERS[W])
     except Exception as e:
         return {"kind": "write-after-edit-failed", "error": type(e).__name__, "msg": str(e)[:300]}
+    return U, E, applied, exps
+
+
+def c03_check(case, prog):
+    """the edited write denotes the unedited write with exactly the edits applied.  -> None | failure dict"""
+    W = case["width"]
+    r = _prepare(case, prog)
+    if r is None or isinstance(r, dict):
+        return r
+    U, E, applied, exps = r
+    try:
+        DU = denote(U, W)
+    except Exception:
+        return None       # the oracle cannot read the unedited write: C01's business
+    ref = Ref(DU)
+    try:
+        for e in applied:
+            ref.apply(e)
+    except (KeyError, IndexError):
+        return None       # the program does not fit this text (shrunk away): not a verdict
+    try:
+        DE = denote(E, W)
+    except Exception as e:
+        return {"kind": "edited-file-unreadable", "error": type(e).__name__, "msg": str(e)[:200], "diffs": [["file", "unreadable"]]}
+    diffs = denote_diff(ref.D, DE)
+    if diffs:
+        edited = set()
+        for e in applied:
+            edited.add(e["kind"])
+        return {"kind": "edit-not-written-exactly", "diffs": [[str(x)[:300] for x in d] for d in diffs[:4]],
+                "n_diffs": len(diffs)}
+    return None
+
+
+# ----------------------------------------------------------------------------- C07
+_CELLMOD_CARD = re.compile(r"^\*?(IMP:|VOL\b|U\b|LAT\b|FILL\b)", re.I)
+_CELL_EDITS = {"cell_number", "density", "importance", "volume", "material_assign", "universe_number",
+               "cell_universe", "fill_universe", "lattice"}
+
+
+def _norm_lines(card):
+    return [l.rstrip().upper() for l in card.lines]
+
+
+def _first(card):
+    t = spec.tokens(card.text)
+    return t[0] if t else ""
+
+
+def _refs_number(tokens_, numbers, bi):
+    """does the card mention one of the numbers (as surface/cell/material/transform/universe reference)?"""
+    for t in tokens_[1:]:
+        m = re.match(r"^[#+-]?(\d+)$", t)
+        if m and int(m.group(1)) in numbers:
+            return True
+    return False
+
+
+_OWN = {"cell_number": "cell", "density": "cell", "importance": "cell", "volume": "cell", "material_assign": "cell",
+        "cell_universe": "cell", "fill_universe": "cell", "lattice": "cell",
+        "surface_number": "surface", "surface_constant": "surface", "boundary": "surface",
+        "material_number": "material", "fraction": "material", "thermal_law": "material",
+        "transform_number": "transform", "tr_displacement": "transform", "tr_degrees": "transform"}
+
+
+def touched_cards(bu, applied, exps=None):
+    """DESIGN §6 C07: the cards an edit program may change: the edited object's own card, cards that refer by
+    number to a renumbered object, data-block cards that list per-cell data when a cell (or a universe number)
+    is edited.  The unedited write carries the ORIGINAL numbers, by which the edits address objects.
+    -> set of (block, index)"""
+    touched = set()
+    own = {(_OWN[e["kind"]], e["orig"]) for e in applied if e["kind"] in _OWN}
+    ren = {}
+    for e in applied:
+        if e["kind"].endswith("_number"):
+            ren.setdefault(e["kind"][:-7], set()).add(e["orig"])
+    cell_edit = any(e["kind"] in _CELL_EDITS for e in applied)
+    in_cells = ren.get("surface", set()) | ren.get("cell", set()) | ren.get("material", set()) | ren.get("universe", set())
+    in_surfs = ren.get("transform", set()) | ren.get("surface", set())
+    for bi in range(3):
+        for ci, card in enumerate(bu[bi]):
+            toks = spec.tokens(card.text, cell_geometry=(bi == 0))
+            if not toks:
+                continue
+            head = toks[0]
+            m = re.match(r"^([*+]?)([A-Z]*)(\d+)$", head)
+            num = int(m.group(3)) if m else None
+            if bi == 0 and ("cell", num) in own:
+                touched.add((bi, ci))
+            if bi == 1 and ("surface", num) in own:
+                touched.add((bi, ci))
+            if bi == 2 and m and m.group(2) in ("M", "MT") and ("material", num) in own:
+                touched.add((bi, ci))
+            if bi == 2 and m and m.group(2) == "TR" and ("transform", num) in own:
+                touched.add((bi, ci))
+            if bi == 0 and in_cells and _refs_number(toks, in_cells, bi):
+                touched.add((bi, ci))
+            if bi == 1 and in_surfs and _refs_number(toks[:2], in_surfs, bi):
+                touched.add((bi, ci))
+            if bi == 2 and _CELLMOD_CARD.match(head) and cell_edit:
+                touched.add((bi, ci))
+    return touched
+
+
+def _tok_ok(t):
+    """a token of a numeric list that is well formed (a number, a shortcut, a jump)"""
+    return spec.read_number(t) is not None or spec._SC.match(t) is not None
+
+
+def c07_check(case, prog):
+    """edited write vs unedited write, card by card, as TEXT.  -> None | failure dict"""
+    W = case["width"]
+    r = _prepare(case, prog)
+    if r is None or isinstance(r, dict):
+        return None       # rejected edits / failing writes are C03's business
+    U, E, applied, exps = r
     su = spec.split_file(U, W)
     se = spec.split_file(E, W)
-    title_exp = [e for e in exps if e[0] == "title"]
-    if title_exp:
-        if se["title"].rstrip() != title_exp[-1][1][: W - 1].rstrip():
-            return {"kind": "title-not-written", "got": se["title"], "want": title_exp[-1][1]}
-    elif su["title"] != se["title"]:
-        return {"kind": "title-changed", "before": su["title"], "after": se["title"]}
+    if not any(ex[0] == "title" for ex in exps) and su["title"] != se["title"]:
+        return {"kind": "title-changed", "before": su["title"], "after": se["title"], "diffs": [["title"]]}
     if (su["message"] or []) != (se["message"] or []):
-        return {"kind": "message-changed"}
+        return {"kind": "message-changed", "diffs": [["message"]]}
     bu = su["blocks"] + [[]] * (3 - len(su["blocks"]))
     be = se["blocks"] + [[]] * (3 - len(se["blocks"]))
-    seen_values = set()
+    touched = touched_cards(bu, applied, exps)
+    cell_edit = any(e["kind"] in _CELL_EDITS for e in applied)
     for bi in range(3):
-        if len(bu[bi]) != len(be[bi]):
-            return {"kind": "card-count-changed", "block": bi, "before": [c.text for c in bu[bi]],
-                    "after": [c.text for c in be[bi]]}
-        for cu, ce in zip(bu[bi], be[bi]):
-            tu = spec.tokens(cu.text, cell_geometry=(bi == 0))
-            te = spec.tokens(ce.text, cell_geometry=(bi == 0))
-            if tu == te:
-                if spec.comments_of(cu) != spec.comments_of(ce):
-                    return {"kind": "comments-changed", "card": cu.text, "before": spec.comments_of(cu),
-                            "after": spec.comments_of(ce)}
+        cu_list = list(enumerate(bu[bi]))
+        ce_list = list(be[bi])
+        if bi == 2 and cell_edit:
+            # data-block cards that list per-cell data may be added, split (particles that no longer share their
+            # values) or rebuilt: they are compared as a group, the other cards one to one
+            mod_u = [(i, c) for i, c in cu_list if _CELLMOD_CARD.match(_first(c))]
+            mod_e = [c for c in ce_list if _CELLMOD_CARD.match(_first(c))]
+            cu_list = [(i, c) for i, c in cu_list if not _CELLMOD_CARD.match(_first(c))]
+            ce_list = [c for c in ce_list if not _CELLMOD_CARD.match(_first(c))]
+            for c in mod_e:
+                bad = [t for t in spec.tokens(c.text)[1:] if not _tok_ok(t)]
+                if bad:
+                    return {"kind": "token-fused", "card": c.text, "token": bad[0], "diffs": [["data", _first(c)]]}
+            cu_com = sorted(x for _, c in mod_u for x in spec.comments_of(c))
+            ce_com = sorted(x for c in mod_e for x in spec.comments_of(c))
+            if cu_com != ce_com:
+                return {"kind": "comments-changed", "card": "per-cell data cards", "before": cu_com, "after": ce_com,
+                        "diffs": [["data", "per-cell"]]}
+        if len(cu_list) != len(ce_list):
+            return {"kind": "card-count-changed", "block": bi, "before": [c.text for _, c in cu_list],
+                    "after": [c.text for c in ce_list], "diffs": [["block", bi]]}
+        for (ci, cu), ce in zip(cu_list, ce_list):
+            if (bi, ci) not in touched:
+                if _norm_lines(cu) != _norm_lines(ce):
+                    return {"kind": "untouched-card-changed", "before": cu.lines, "after": ce.lines,
+                            "diffs": [["block %d" % bi, _first(cu)]]}
                 continue
-            if len(tu) != len(te):
-                # value lists that are rebuilt through shortcuts may change length: compare expanded values
-                if bi != 0:
-                    xu = spec.expand_shortcuts(tu)
-                    xe = spec.expand_shortcuts(te)
-                    if len(xu) == len(xe):
-                        tu, te = [str(x) for x in xu], [str(x) for x in xe]
-                if len(tu) != len(te) and bi == 0:
-                    # a per-cell datum that did not exist before is added as KEY value at the end of the card
-                    added = [ex for ex in exps if ex[0] == "value" and ex[3][0] in ("vol",)]
-                    if added and len(te) == len(tu) + 2 and te[-2] == "VOL":
-                        v = spec.read_number(te[-1])
-                        if v is not None and any(spec.close(float(v), float(ex[4])) for ex in added):
-                            te = te[:-2]
-                if len(tu) != len(te):
-                    return {"kind": "token-count-changed", "before": cu.text, "after": ce.text}
-            for a, b in zip(tu, te):
-                if a != b:
-                    na, nb = spec.read_number(a), spec.read_number(b)
-                    if na is not None and nb is not None and spec.close(na, nb):
-                        # same value re-spelled: only allowed for the edited token itself
-                        if not explain_token_change(a, b, exps):
-                            return {"kind": "untouched-token-respelled", "before": cu.text, "after": ce.text,
-                                    "token": [a, b]}
-                        continue
-                    if not explain_token_change(a, b, exps):
-                        return {"kind": "unexplained-change", "before": cu.text, "after": ce.text, "token": [a, b],
-                                "expectations": [list(map(str, x)) for x in exps]}
-            if spec.comments_of(cu) != spec.comments_of(ce):
-                return {"kind": "comments-changed", "card": cu.text, "before": spec.comments_of(cu),
-                        "after": spec.comments_of(ce)}
-    # every expectation must be visible in the edited file (C03: "each edited quantity carries its new value")
-    miss = c03_visible(se, exps, W)
-    if miss:
-        return {"kind": "edit-not-written", "missing": miss}
+            r2 = _touched_card_check(cu, ce, bi, exps, applied)
+            if r2:
+                r2["diffs"] = [["block %d" % bi, _first(cu), r2["kind"]]]
+                return r2
     return None
 
 
-def _find_card(blocks, bi, number, prefix=""):
-    for c in blocks[bi]:
-        t = spec.tokens(c.text)
-        if not t:
-            continue
-        m = re.match(r"^[*+]?([A-Z]*)(\d+)", t[0])
-        if m and int(m.group(2)) == number and m.group(1) == prefix:
-            return c
-    return None
+def _param_start(toks):
+    for i, t in enumerate(toks):
+        if i >= 2 and spec._CELL_KEY.match(t) and spec.read_number(t) is None and not spec._SC.match(t):
+            return i
+    return len(toks)
 
 
-def c03_visible(se, exps, W):
-    blocks = se["blocks"] + [[]] * (3 - len(se["blocks"]))
-    final_num = {}
-    # the last value set for a quantity wins; renumberings chain
-    last = {}
-    for ex in exps:
-        if ex[0] == "value":
-            last[(ex[1], ex[2], ex[3])] = ex
-    ren = [ex for ex in exps if ex[0] == "renumber"]
+def _touched_card_check(cu, ce, bi, exps, applied):
+    """tokens of an edited card other than the edited ones keep spelling and order; comments are kept"""
+    tu = spec.tokens(cu.text, cell_geometry=(bi == 0))
+    te = spec.tokens(ce.text, cell_geometry=(bi == 0))
+    if spec.comments_of(cu) != spec.comments_of(ce):
+        return {"kind": "comments-changed", "card": cu.text, "before": spec.comments_of(cu), "after": spec.comments_of(ce)}
+    if tu == te or not tu or not te:
+        return None
+    head = re.match(r"^([*+]?)([A-Z]*)(\d+)$", tu[0])
+    num = int(head.group(3)) if head else None
+    mine = [e for e in applied if e.get("orig") == num and _OWN.get(e["kind"]) ==
+            ({0: "cell", 1: "surface"}.get(bi) or ("material" if head and head.group(2) in ("M", "MT") else "transform"))]
+    # --- the card's own number token: number / boundary modifier / '*' of *TR are edited quantities
+    hu, he = tu[0], te[0]
+    if hu != he:
+        mu = re.match(r"^([*+]?)([A-Z]*)(\d+)$", hu)
+        me = re.match(r"^([*+]?)([A-Z]*)(\d+)$", he)
+        ok = bool(mu and me and mu.group(2) == me.group(2))
+        if ok and mu.group(3) != me.group(3):
+            ok = any(e["kind"].endswith("_number") for e in mine)
+        if ok and mu.group(1) != me.group(1):
+            ok = any(e["kind"] in ("boundary", "tr_degrees") for e in mine)
+        if not ok:
+            return {"kind": "unexplained-change", "before": cu.text, "after": ce.text, "token": [hu, he]}
+    if head and head.group(2) == "MT" and any(e["kind"] == "thermal_law" for e in mine):
+        return None          # every other token of the card is the edited list of laws
+    values = [ex[4] for ex in exps if ex[0] == "value"]
 
-    def current(kind, n):
-        for _, k, o, nn in ren:
-            if k == kind and o == n:
-                n = nn
-        return n
+    def is_edit_value(tok):
+        v = spec.read_number(tok)
+        if v is None:
+            return False
+        return any(isinstance(x, (int, float)) and not isinstance(x, bool)
+                   and (spec.close(v, Fraction(x)) or spec.close(abs(v), abs(Fraction(x)))) for x in values)
 
-    for ex in ren:
-        _, kind, o, n = ex
-        n = current(kind, o) if False else n
-    for (bi, cid, what), ex in last.items():
-        val = ex[4]
-        kind = {0: "cell", 1: "surface"}.get(bi)
-        if bi == 2:
-            kind = "material" if what[0] == "fraction" else "transform"
-        cid_now = cid
-        # the card id recorded at edit time may have been renumbered later
-        idx = exps.index(ex)
-        for later in exps[idx + 1:]:
-            if later[0] == "renumber" and later[1] == kind and later[2] == cid_now:
-                cid_now = later[3]
-        prefix = "" if bi < 2 else ("M" if kind == "material" else "TR")
-        card = _find_card(blocks, bi, cid_now, prefix)
-        if card is None:
-            return {"edit": list(map(str, ex)), "why": "card not found"}
-        try:
-            if what[0] == "constant":
-                s = spec.parse_surface(card)
-                got = s["constants"][what[1]]
-            elif what[0] == "density":
-                c = spec.parse_cell(card)
-                got = abs(c["density"]) if c["density"] is not None else None
-                if c["density"] is not None and ((c["density"] < 0) == bool(what[1])) and val != 0:
-                    return {"edit": list(map(str, ex)), "why": "density sign does not match atom/mass", "card": card.text}
-            elif what[0] == "material":
-                got = spec.parse_cell(card)["material"]
-            elif what[0] == "vol":
-                c = spec.parse_cell(card)
-                if "VOL" in c["params"]:
-                    got = spec.expand_shortcuts(c["params"]["VOL"])[0]
-                else:
-                    continue      # written in the data block: C09's business
-            elif what[0] == "imp":
-                c = spec.parse_cell(card)
-                got = None
-                for key, v in c["params"].items():
-                    if key.startswith("IMP:") and what[1].upper() in key[4:].split(","):
-                        got = spec.expand_shortcuts(v)[0]
-                if got is None:
-                    continue      # data block
-            elif what[0] == "fraction":
-                toks = spec.tokens(card.text)[1:]
-                nums = [t for t in toks if "=" not in t]
-                got = spec.read_number(nums[2 * what[1] + 1])
-            elif what[0] == "displacement":
-                toks = spec.expand_shortcuts(spec.tokens(card.text)[1:])
-                got = toks[what[1]]
-            else:
+    def pairwise(a, b):
+        for x, y in zip(a, b):
+            if x == y:
                 continue
-        except Exception as e:
-            return {"edit": list(map(str, ex)), "why": "oracle could not read the card: %r" % e, "card": card.text}
-        if got is None or not spec.close(float(got), float(val)):
-            return {"edit": list(map(str, ex)), "why": "written value differs", "got": str(got), "card": card.text}
-    return None
+            nx, ny = spec.read_number(x), spec.read_number(y)
+            if nx is not None and ny is not None and spec.close(nx, ny) and not is_edit_value(y):
+                return {"kind": "untouched-token-respelled", "before": cu.text, "after": ce.text, "token": [x, y]}
+            if _fused(y):
+                return {"kind": "token-fused", "card": ce.text, "token": y}
+        return None
+
+    if bi == 0:
+        # geometry part token by token; the parameter part may gain a per-cell datum or have an IMP entry split
+        pu, pe = _param_start(tu), _param_start(te)
+        if pu != pe:
+            return {"kind": "token-count-changed", "before": cu.text, "after": ce.text, "tokens": [tu[:pu], te[:pe]]}
+        r = pairwise(tu[1:pu], te[1:pe])
+        if r:
+            return r
+        ku, ke = _params(tu[pu:]), _params(te[pe:])
+        for key, vals in ke.items():
+            if key in ku and len(ku[key]) == len(vals):
+                r = pairwise(ku[key], vals)
+                if r:
+                    return r
+        lost = [k for k in ku if k not in ke and not k.startswith("IMP:")]
+        if lost:
+            return {"kind": "parameter-lost", "before": cu.text, "after": ce.text, "tokens": lost}
+        return None
+    if len(tu) == len(te):
+        return pairwise(tu[1:], te[1:])
+    # the number of tokens changed: allowed inside numeric lists that contain shortcuts (an edit inside a
+    # shortcut's range forces its expansion); the expanded lists then have the same length
+    if any(spec._SC.match(t) for t in tu[1:]) or any(spec._SC.match(t) for t in te[1:]):
+        xu = spec.expand_shortcuts(tu[1:])
+        xe = spec.expand_shortcuts(te[1:])
+        bad = [t for t in te[1:] if _fused(t)]
+        if bad:
+            return {"kind": "token-fused", "card": ce.text, "token": bad[0]}
+        if len(xu) == len(xe):
+            return None
+    return {"kind": "token-count-changed", "before": cu.text, "after": ce.text, "tokens": [tu, te]}
+
+
+def _fused(t):
+    """looks like two numbers written without a separator (6.06.58.09, 0R0.5, 2R0.5)"""
+    if spec.read_number(t) is not None or spec._SC.match(t):
+        return False
+    return bool(re.match(r"^[+-]?[\d.]", t)) and not re.match(r"^\d+(\.\d+[A-Z]+)?$", t) and \
+        bool(re.search(r"\d*[RIJ][\d.+-]|\.\d*\.|\d[+-]\d+[.]", t))
+
+
+def _params(toks):
+    """parameter part of a cell card -> {KEY: [value tokens]} (':' of IMP:N glued back)"""
+    tail = re.sub(r"\s*:\s*", ":", " ".join(toks))
+    out = {}
+    key = None
+    for t in tail.split():
+        if spec._CELL_KEY.match(t) and spec.read_number(t) is None and not spec._SC.match(t):
+            key = t
+            out.setdefault(key, [])
+        elif key is not None:
+            out[key].append(t)
+    return out
 
 
 # ----------------------------------------------------------------------------- C19
